@@ -401,6 +401,17 @@ pub fn exec(func: &str, a: &mut Args) -> String {
             }
             s
         }
+        // the GJK-route cast itself (both shapes support-mapped); the taps that follow the options in the argument list are
+        // for the model only
+        "smsm" => {
+            let pos12 = dx::iso(a); let v = dx::v(a); let o = opts(a);
+            while a.tok() != "shapes" {}
+            let g1 = shape(a); let g2 = shape(a);
+            match (g1.as_support_map(), g2.as_support_map()) {
+                (Some(s1), Some(s2)) => fohit(&px::query::details::cast_shapes_support_map_support_map(&pos12, &v, s1, s2, o)),
+                _ => "unsupported".into(),
+            }
+        }
         "hfwalk" => hfwalk_exec(a),
         // debugging aid: the e2e arguments seen from the height field's frame + the trace of the cell walk
         "hfdbg" => {
